@@ -71,6 +71,26 @@ def _pattern(path: list) -> str:
     return "".join(path)
 
 
+def _is_datetime(x):
+    return isinstance(x, dict) and len(x) == 1 and "__datetime" in x
+
+
+def _same_datetime(a, b):
+    """Python's ==: two aware datetimes are equal when they are the same
+    instant, whatever offset they are written with; a naive one never equals
+    an aware one."""
+    import datetime as dt  # noqa: PLC0415
+
+    try:
+        x = dt.datetime.fromisoformat(a["__datetime"])
+        y = dt.datetime.fromisoformat(b["__datetime"])
+    except (TypeError, ValueError):
+        return a == b
+    if (x.tzinfo is None) != (y.tzinfo is None):
+        return False
+    return x == y
+
+
 def first_diff(a, b, path=None):
     """First differing location between two canon trees, as a value-free
     pattern (list indices replaced by []), or None if equal.
@@ -84,6 +104,10 @@ def first_diff(a, b, path=None):
         return None if a == b else (_pattern(path), a, b)
     if type(a) is not type(b):
         return _pattern(path), a, b
+    if _is_datetime(a) and _is_datetime(b):
+        return None if _same_datetime(a, b) else (
+            _pattern(path + [".__datetime"]), a["__datetime"], b["__datetime"]
+        )
     if isinstance(a, dict):
         keys = list(dict.fromkeys(list(a) + list(b)))
         for key in keys:
@@ -115,6 +139,10 @@ def iter_diffs(a, b, path=None):
         return
     if type(a) is not type(b):
         yield _pattern(path), a, b
+        return
+    if _is_datetime(a) and _is_datetime(b):
+        if not _same_datetime(a, b):
+            yield _pattern(path + [".__datetime"]), a["__datetime"], b["__datetime"]
         return
     if isinstance(a, dict):
         for key in dict.fromkeys(list(a) + list(b)):
